@@ -24,7 +24,7 @@ MUST_REACH = ["raised-in-cancelled-scope", "yielded", "shield-protected", "sync-
 
 OPS = ["sleep", "checkpoint", "event_wait_set", "lock_acquire", "lock_ctx", "sem_acquire", "limiter_acquire", "limiter_ctx", "cond_acquire", "cond_wait_cancelled",
        "send_room", "send_to_waiting_receiver", "receive_buffered", "receive_from_waiting_sender", "future_wait", "future_await", "handle_wait", "handle_await",
-       "reduce_empty_initial", "reduce_empty_async_initial", "run_sync_cancelled", "taskgroup_empty"]
+       "reduce_empty_initial", "reduce_empty_async_initial", "reduce_single_no_initial", "reduce_single_async_no_initial", "run_sync_cancelled", "taskgroup_empty"]
 SYNC_OPS = ["lock_fast", "sem_fast", "lock_nowait", "sem_nowait", "limiter_nowait", "send_nowait", "receive_nowait", "close", "event_set", "cond_notify"]
 ITER_FUNCS = ["accumulate", "batched", "chain", "combinations", "combinations_with_replacement", "compress", "cycle0", "dropwhile", "filterfalse", "groupby",
               "islice", "islice_empty_range", "pairwise", "permutations", "product", "repeat", "repeat0", "starmap", "takewhile", "zip_longest", "zip_longest_none", "tee", "count_prefix"]
@@ -150,6 +150,21 @@ def cell(sym, cov, op):
 
             call = (lambda: reduce(add, [], 0)) if op == "reduce_empty_initial" else (lambda: reduce(add, noitems(), 0))  # noqa: E731
             snap = lambda: len(calls)  # noqa: E731
+        elif op in ("reduce_single_no_initial", "reduce_single_async_no_initial"):
+            # one element and no initial value: the function is never called either
+            from anyio.functools import reduce
+
+            calls = []
+
+            async def add(x, y):
+                calls.append(1)
+                return x + y
+
+            async def one():
+                yield 5
+
+            call = (lambda: reduce(add, [5])) if op == "reduce_single_no_initial" else (lambda: reduce(add, one()))  # noqa: E731
+            snap = lambda: len(calls)  # noqa: E731
         elif op == "run_sync_cancelled":
             import anyio._backends._asyncio as B
 
@@ -182,7 +197,17 @@ def cell(sym, cov, op):
                 if need_cancel_only and not eff:
                     sym.assume(False)
                 state_before = snap()
-                loop.call_soon(marker.append, 1)
+                seen_during = []
+
+                def observe():
+                    # a peer looking at the object while the call is suspended
+                    marker.append(1)
+                    try:
+                        seen_during.append(snap())
+                    except Exception:
+                        pass
+
+                loop.call_soon(observe)
                 try:
                     await call()
                     raised = False
@@ -193,6 +218,7 @@ def cell(sym, cov, op):
                 out["yielded"] = bool(marker)
                 out["state_unchanged"] = snap() == state_before
                 out["state"] = (state_before, snap())
+                out["seen_during"] = (not seen_during) or seen_during[0] == state_before or op in ("cond_wait_cancelled",)
                 if raised and op == "cond_wait_cancelled":
                     out["still_holds_lock"] = snap()[2]
                     cond.release()
@@ -223,6 +249,7 @@ def cell(sym, cov, op):
     elif out["eff"]:
         chk(out["raised"], "no-cancellation-raised-in-effectively-cancelled-scope", {"op": op})
         chk(out["state_unchanged"], "effect-performed-although-cancelled", {"op": op, "state": out["state"]})
+        chk(out["seen_during"], "effect-visible-to-a-peer-while-the-cancelled-call-was-suspended", {"op": op})
         if op == "cond_wait_cancelled":
             chk(out["still_holds_lock"], "condition-wait-lost-the-lock")
         cov.hit("raised-in-cancelled-scope")
